@@ -24,7 +24,8 @@ def sh(cmd, cwd=None, timeout=3600, env=None):
 
 def demo_cmd(wt, src, exe):
     libs = " ".join(f"_b/src/lib{l}.a" for l in ["linear", "machine", "solver", "program", "function", "core"])
-    return (f"g++ -std=c++17 -O1 -I include -I src -I _b -isystem /usr/include/eigen3 {src} -o {exe} "
+    nd = "-DNDEBUG " if "-DNDEBUG" in "".join(open(os.path.join(wt, src) if not os.path.isabs(src) else src).readlines()[:25]) else ""
+    return (f"g++ -std=c++17 -O1 {nd}-I include -I src -I _b -isystem /usr/include/eigen3 {src} -o {exe} "
             f"-Wl,--start-group {libs} -Wl,--end-group -lpthread")
 
 
@@ -40,11 +41,11 @@ def main():
     rc, o = sh("git checkout -q -- . && git status --short | grep -v '^??' | wc -l", cwd=wt)
     # 1. clean tree
     rc, o = sh("cmake --build _b -j8 2>&1 | tail -3", cwd=wt)
-    rc, o = sh(demo_cmd(wt, demo, "/tmp/seed_demo_clean"), cwd=wt)
+    rc, o = sh(demo_cmd(wt, demo, os.path.join(out, "demo_clean.bin")), cwd=wt)
     if rc != 0:
         print("demo does not compile on the clean tree:\n", o[-2000:]); meta["demo_clean"] = "compile-error"
     else:
-        rc, o = sh("/tmp/seed_demo_clean", cwd=wt, timeout=900)
+        rc, o = sh(os.path.join(out, "demo_clean.bin"), cwd=wt, timeout=900)
         meta["demo_clean_rc"] = rc
         print(f"[1] clean tree: demo rc={rc}")
     # 2. patched tree
@@ -61,9 +62,9 @@ def main():
             meta["ctest_summary"] = [l for l in o.splitlines() if "tests passed" in l]
             print(f"[2] patched: build rc={meta['build_rc']}, ctest failed={sorted(failed)} (flaky ignored: {sorted(FLAKY)})")
             meta["tests_pass"] = failed <= FLAKY and meta["build_rc"] == 0
-        rc, o = sh(demo_cmd(wt, demo, "/tmp/seed_demo_patched"), cwd=wt)
+        rc, o = sh(demo_cmd(wt, demo, os.path.join(out, "demo_patched.bin")), cwd=wt)
         if rc == 0:
-            rc, o = sh("/tmp/seed_demo_patched", cwd=wt, timeout=900)
+            rc, o = sh(os.path.join(out, "demo_patched.bin"), cwd=wt, timeout=900)
             meta["demo_patched_rc"] = rc
             meta["demo_patched_out"] = o[-600:]
             print(f"[2] patched: demo rc={rc}: {o.strip()[-300:]}")
